@@ -27,6 +27,16 @@ func zzBackOffReset(b *backoff.ExponentialBackOff) {}
 //vrt:replace (*github.com/cenkalti/rain/v2/internal/announcer.AnnounceError).ErrorWithType github.com/cenkalti/rain/v2/internal/announcer.zzErrorWithType
 func zzErrorWithType(e *AnnounceError) string { return "error" }
 
+// zzDuration: any duration a tracker reply can carry: the range of a 32-bit
+// count of seconds (negative and zero included), at nanosecond granularity
+// (a superset of the whole-second values; avoids a 64-bit multiplication by
+// 10^9 in every solver query).
+func zzDuration(name string) time.Duration {
+	d := time.Duration(vrt.I64(name))
+	vrt.Assume(d >= -(1<<31)*time.Second && d < (1<<31)*time.Second)
+	return d
+}
+
 type zzReply struct {
 	kind     int // 0 ok, 1 tracker failure with retry-in, 2 undecodable reply, 3 aborted by someone else (context.Canceled although this announcer cancelled nothing)
 	interval time.Duration
@@ -83,10 +93,10 @@ func ZZAnnouncerEvents() {
 		r := zzReply{kind: vrt.Choice("reply_kind", 4)}
 		switch r.kind {
 		case 0:
-			r.interval = time.Duration(vrt.I32("interval_s")) * time.Second
-			r.minIntvl = time.Duration(vrt.I32("min_interval_s")) * time.Second
+			r.interval = zzDuration("interval_ns")
+			r.minIntvl = zzDuration("min_interval_ns")
 		case 1:
-			r.retryIn = time.Duration(vrt.I32("retry_in_s")) * time.Second
+			r.retryIn = zzDuration("retry_in_ns")
 		}
 		trk.replies = append(trk.replies, r)
 	}
